@@ -10,17 +10,6 @@ Import ListNotations.
 Local Open Scope N_scope.
 Ltac Zify.zify_post_hook ::= Z.div_mod_to_equations.
 
-Lemma label_at_here m p l :
-  valid_label l -> bytes_at m p (mlen l :: l) -> label_at m (mlen m) p = Some l.
-Proof.
-  intros [Hl Hw] Hb. unfold label_at.
-  pose proof Hb as Hb0. apply bytes_at_cons in Hb0 as [Hg Hb1]. rewrite Hg.
-  pose proof (bytes_at_end m p (mlen l :: l) ltac:(discriminate) Hb) as He. rewrite mlen_cons in He.
-  destruct (N.leb_spec (mlen l) 63); [|unfold mlen in *; lia].
-  destruct (N.leb_spec (p + 1 + mlen l) (PName.mlen m)); [|lia]. cbn [andb].
-  rewrite (slice_bytes_at m (p + 1) l Hb1). reflexivity.
-Qed.
-
 Lemma hash_find_some m ml es l pos h :
   hash_find m ml es l pos = Ok (Some h) ->
   exists hl, In (h, pos) es /\ label_at m ml h = Some hl /\ label_eq hl l = true.
@@ -131,6 +120,85 @@ Proof.
     + lia.
 Qed.
 
+(* a failed lookup: no entry matches *)
+Lemma hash_find_none m ml l pos : forall es,
+  hash_find m ml es l pos = Ok None ->
+  forall h hl, In (h, pos) es -> label_at m ml h = Some hl -> label_eq hl l = true -> False.
+Proof.
+  induction es as [|[h0 t0] es IH]; cbn [hash_find]; intros H h hl Hin HL HE; [destruct Hin|].
+  destruct (label_at m ml h0) as [hl0|] eqn:EL; [|discriminate].
+  destruct (label_eq hl0 l && (t0 =? pos)) eqn:E; [discriminate|].
+  destruct Hin as [Hin|Hin]; [|eapply IH; eauto].
+  injection Hin as -> ->. rewrite EL in HL. injection HL as ->. rewrite HE, N.eqb_refl in E. discriminate.
+Qed.
+
+(* the walk stops at a label that is not in the table *)
+Lemma hash_walk_stop m ml es : forall rl pos pos' rest,
+  hash_walk m ml es rl pos = Ok (pos', rest) ->
+  match rest with [] => True | l :: _ => hash_find m ml es l pos' = Ok None end.
+Proof.
+  induction rl as [|l rl IH]; intros pos pos' rest H; cbn [hash_walk] in H.
+  - injection H as <- <-. exact I.
+  - destruct (hash_find m ml es l pos) as [[h|]| | |] eqn:EF; try discriminate.
+    + eapply IH; eauto.
+    + injection H as <- <-. exact EF.
+Qed.
+
+(* heads and tails of the new entries *)
+Lemma hentries_facts m position : forall ls p,
+  Forall valid_label ls -> bytes_at m p (wire_rel ls) ->
+  (position < p \/ position = 65535) ->
+  (forall h t, In (h, t) (hentries p ls position) ->
+     p <= h /\ h < 16384 /\ (t = position \/ (h < t /\ t < 65535)) /\
+     (t = position -> label_at m (mlen m) h = Some (last ls []))) /\
+  (forall h1 h2 t, In (h1, t) (hentries p ls position) -> In (h2, t) (hentries p ls position) -> h1 = h2).
+Proof.
+  induction ls as [|l ls' IH]; intros p Hv Hb Hp; cbn [hentries]; [split; intros; contradiction|].
+  inversion Hv as [|? ? Hl Hv']; subst. pose proof Hl as [Hl1 _].
+  unfold wire_rel in Hb. cbn [map concat] in Hb. fold (wire_rel ls') in Hb.
+  apply bytes_at_split in Hb as [Hb1 Hb2]. change (wire_label l) with (mlen l :: l) in Hb1.
+  replace (mlen (wire_label l)) with (1 + mlen l) in Hb2 by (unfold wire_label; rewrite mlen_cons; reflexivity).
+  replace (p + (1 + mlen l)) with (p + 1 + mlen l) in Hb2 by lia.
+  destruct (IH (p + 1 + mlen l) Hv' Hb2 ltac:(lia)) as (F1 & F2).
+  assert (G : forall h t, In (h, t) (if p <? hash_ptr_limit then [(p, match ls' with [] => position | _ :: _ => p + (N.of_nat (length l) + 1) end)] else []) ->
+              h = p /\ p < 16384 /\ t = match ls' with [] => position | _ :: _ => p + 1 + mlen l end).
+  { intros h t Hin. destruct (N.ltb_spec p hash_ptr_limit) as [G|G]; [|destruct Hin]. unfold hash_ptr_limit in G.
+    destruct Hin as [Hin|[]]. injection Hin as <- <-. split; [reflexivity|]. split; [exact G|].
+    destruct ls'; [reflexivity|unfold mlen; lia]. }
+  split.
+  - intros h t Hin. apply in_app_iff in Hin as [Hin|Hin].
+    + destruct (G _ _ Hin) as (-> & Gp & Et). split; [lia|]. split; [exact Gp|].
+      destruct ls' as [|l2 ls2].
+      * split; [left; exact Et|]. intros _. cbn [last]. apply label_at_here; auto.
+      * split; [right; unfold mlen in *; lia|]. intros Ep. exfalso. unfold mlen in *. lia.
+    + destruct (F1 _ _ Hin) as (A & B & C & D). split; [lia|]. split; [exact B|]. split; [exact C|].
+      intros Ep. rewrite (D Ep). destruct ls'; [destruct Hin|reflexivity].
+  - intros h1 h2 t I1 I2. apply in_app_iff in I1, I2.
+    destruct I1 as [I1|I1], I2 as [I2|I2].
+    + destruct (G _ _ I1) as (-> & _). destruct (G _ _ I2) as (-> & _). reflexivity.
+    + destruct (G _ _ I1) as (-> & Gp & Et). destruct (F1 _ _ I2) as (A & B & C & _).
+      destruct ls' as [|l2 ls2]; [destruct I2|]. exfalso. unfold mlen in *. destruct C as [C|C]; lia.
+    + destruct (G _ _ I2) as (-> & Gp & Et). destruct (F1 _ _ I1) as (A & B & C & _).
+      destruct ls' as [|l2 ls2]; [destruct I1|]. exfalso. unfold mlen in *. destruct C as [C|C]; lia.
+    + eapply F2; eauto.
+Qed.
+
+Lemma last_rev_hd (l : label) (r : list label) : last (rev (l :: r)) [] = l.
+Proof. cbn [rev]. apply last_last. Qed.
+
+Lemma label_at_app m x h l : label_at m (mlen m) h = Some l -> label_at (m ++ x) (mlen (m ++ x)) h = Some l.
+Proof.
+  unfold label_at. destruct (get m h) as [b|] eqn:Eg; [|discriminate].
+  destruct ((b <=? 63) && (h + 1 + b <=? mlen m)) eqn:E; [|discriminate]. intros H.
+  apply andb_true_iff in E as [E1 E2]. apply N.leb_le in E2.
+  rewrite (get_app_l m x h) by (eapply get_some_lt; eauto). rewrite Eg, E1. rewrite mlen_app.
+  destruct (N.leb_spec (h + 1 + b) (mlen m + mlen x)); [|lia]. cbn [andb].
+  injection H as <-. f_equal. unfold slice. rewrite skipn_app, firstn_app.
+  replace (N.to_nat (h + 1 + b - (h + 1)) - length (skipn (N.to_nat (h + 1)) m))%nat with 0%nat
+    by (rewrite skipn_length; unfold mlen in *; lia).
+  cbn [firstn]. rewrite app_nil_r. reflexivity.
+Qed.
+
 Lemma Forall_valid_rev (ls : name) : Forall valid_label ls -> Forall valid_label (rev ls).
 Proof. intros H. apply Forall_forall. intros x Hx. apply in_rev in Hx. rewrite Forall_forall in H. auto. Qed.
 
@@ -141,7 +209,7 @@ Proof. unfold canon. apply map_rev. Qed.
 
 Lemma hash_acn_ok c : AcnSpec c (hash_acn c).
 Proof.
-  intros ok n w w' Hv TB SI (CS & CT & CH) Ho H. unfold hash_acn in H.
+  intros ok n w w' Hv TB SI (CS & CT & CH & CU) Ho H. unfold hash_acn in H.
   destruct (hash_walk (w_buf w) (mlen (w_buf w)) (w_hash w) (rev n) hash_root_pos) as [[position rest]| | |] eqn:EW; try discriminate.
   set (b := w_buf w) in *. set (p := mlen b) in *.
   assert (HB : Forall (fun e => fst e < p /\ fst e < 16384) (w_hash w)) by (destruct TB as (_ & _ & X); exact X).
@@ -181,12 +249,45 @@ Proof.
   assert (Hbytes : bytes_at (w_buf w') p (wire_rel (rev rest))) by (rewrite Bfull; apply bytes_at_app).
   assert (Hokr : forall i, p <= i < p + mlen (wire_rel (rev rest)) -> ok i) by (intros; apply Okr; lia).
   split.
-  - unfold CInv. rewrite a1, a2, a3, S1, T1, H1, Bfull. split; [|split].
+  - unfold CInv. rewrite a1, a2, a3, S1, T1, H1, Bfull. split; [|split; [|split]].
     + eapply Forall_weaken; [|exact CS]. intros v Hs. apply StaticOK_app; exact Hs.
     + eapply Forall_weaken; [|exact CT]. intros [k v] Hs. apply TreeOK_app; exact Hs.
     + apply Forall_app. split.
       * eapply Forall_weaken; [|exact CH]. intros [h t0] Hs. apply HashOK_app; exact Hs.
       * rewrite <- Bfull. eapply (hentries_ok (w_buf w') ok p position tail); eauto. lia.
+    + (* at most one entry per (label, tail) *)
+      rewrite <- Bfull.
+      assert (Hpos : position < p \/ position = 65535).
+      { destruct HR as [[Hp _]|(_ & Hpb & _)]; [right; exact Hp|left; exact Hpb]. }
+      destruct (hentries_facts (w_buf w') position (rev rest) p Hvw Hbytes Hpos) as (F1 & F2).
+      assert (Hold : forall h tt, In (h, tt) (w_hash w) -> h < p /\ (tt < p \/ tt = 65535) /\
+                     forall lx, label_at (w_buf w') (mlen (w_buf w')) h = Some lx -> label_at b (mlen b) h = Some lx).
+      { intros h tt Hin. rewrite Forall_forall in HB, CH. destruct (HB _ Hin) as [Hh _]. cbn [fst] in Hh.
+        destruct (CH _ Hin) as (l0 & ls0 & e0 & HL0 & HT0). cbn [fst snd] in HL0, HT0.
+        split; [exact Hh|]. split.
+        - destruct HT0 as [[-> _]|(_ & seg & e' & HN)]; [right; reflexivity|left].
+          apply NameIn_end_le in HN. fold b in HN. fold p in HN. lia.
+        - intros lx Hl. destruct HL0 as (V & _ & Bt & _). pose proof (label_at_here _ _ _ V Bt) as X0. fold b in X0.
+          rewrite Bfull in Hl. rewrite (label_at_app b _ h l0 X0) in Hl. rewrite X0. exact Hl. }
+      intros h1 h2 tt la lb I1 I2 L1 L2 E.
+      apply in_app_iff in I1, I2. destruct I1 as [I1|I1], I2 as [I2|I2].
+      * destruct (Hold _ _ I1) as (_ & _ & X1). destruct (Hold _ _ I2) as (_ & _ & X2).
+        apply (CU h1 h2 tt la lb); auto.
+      * exfalso. destruct (Hold _ _ I1) as (Hh1 & Ht1 & X1). destruct (F1 _ _ I2) as (A & Bh & C & D).
+        destruct C as [C|C]; [|lia]. subst tt. specialize (D eq_refl).
+        destruct rest as [|lf rest']; [destruct I2|].
+        rewrite last_rev_hd in D. rewrite D in L2. injection L2 as <-.
+        pose proof (hash_walk_stop _ _ _ _ _ _ _ EW) as HS. cbn in HS.
+        eapply (hash_find_none b (mlen b) lf position (w_hash w) HS h1 la); eauto.
+        apply label_eq_spec. exact E.
+      * exfalso. destruct (Hold _ _ I2) as (Hh2 & Ht2 & X2). destruct (F1 _ _ I1) as (A & Bh & C & D).
+        destruct C as [C|C]; [|lia]. subst tt. specialize (D eq_refl).
+        destruct rest as [|lf rest']; [destruct I1|].
+        rewrite last_rev_hd in D. rewrite D in L1. injection L1 as <-.
+        pose proof (hash_walk_stop _ _ _ _ _ _ _ EW) as HS. cbn in HS.
+        eapply (hash_find_none b (mlen b) lf position (w_hash w) HS h2 lb); eauto.
+        apply label_eq_spec. symmetry. exact E.
+      * eapply F2; eauto.
   - exists (rev rest ++ tail). split.
     + rewrite En, !canon_app. f_equal. exact Hc.
     + apply (NameIn_complete (w_buf w') ok p tail _ (rev rest) p p); auto; lia.
